@@ -199,7 +199,7 @@ Inductive case :=
 | PMCase (npids : nat) (ops : list op) (results : list res) (dump : list dump_entry)
 | PMBigCase (npids : nat) (pre : list op) (pre_res : list res) (k run_len : nat)
             (post : list op) (post_res : list res) (dump : list dump_entry)
-| ScanCase (p : pat) (d : bytes) (mm : option N) (panicked : bool) (reported : list triple)
+| ScanCase (p : pat) (subs : list (nat * bool)) (d : bytes) (mm : option N) (panicked : bool) (reported : list triple)
 (* the real MatchList / PatternMatches panicked while running the operations
    (the sequence is in the replay file).  The model is total: no operation
    sequence makes it fail (search_index_le, matches_in_range_spec), so this
@@ -488,6 +488,41 @@ Definition chain_check (p : pat) (pieces : list cpiece) (atoms : list atom) (ker
                        (evs : list event) (fwd_only : list nat) (d : bytes) (rep : list triple) : bool :=
   chain_check_bits p pieces atoms kernel hits evs fwd_only d rep =? 0.
 
+(* ---- the sub-patterns of a pattern, per requested form ------------------- *)
+(* subs: for every sub-pattern the compiler made of the pattern (hook
+   Rules::verif_c01_dump), its kind (0 Literal, 1 LiteralWithMask, 2 LiteralChainHead,
+   3 LiteralChainTail, 4 Regexp, 5 RegexpChainHead, 6 RegexpChainTail, 7 Xor, 8 Base64*,
+   9 anything else, 10 not recorded) and its Wide flag.  What c_literal_pattern / c_regexp_pattern /
+   c_alternation_literal / c_chain promise about them:
+     - a form that was asked for (ascii: no `wide`, or `ascii wide`; wide: `wide`) has at
+       least one sub-pattern, a form that was not asked for has none;
+     - with both forms the two families have the same number of sub-patterns;
+     - the LiteralWithMask shortcut is taken only without `nocase` and without `wide`;
+     - a plain Regexp comes once per form.
+   (Base64* sub-patterns carry no flags: their forms are inside the sub-pattern.) *)
+Definition forms_of (p : pat) : option (bool * bool * bool) :=      (* ascii form?, wide form?, nocase *)
+  match p with
+  | PText _ m => if has_b64 m then None else Some (negb (tm_wide m) || tm_ascii m, tm_wide m, tm_nocase m)
+  | PHex _ => Some (true, false, false)
+  | PRegexp _ m => Some (negb (rm_wide m) || rm_ascii m, rm_wide m, rm_nocase m)
+  end.
+Definition subs_ok (p : pat) (subs : list (nat * bool)) : bool :=
+  (* kind 10: not recorded (rule sets with several patterns: identical patterns are merged
+     by the compiler and the pattern numbers of the dump are not those of the source) *)
+  existsb (fun kw => Nat.eqb (fst kw) 10) subs ||
+  match forms_of p with
+  | None => forallb (fun kw => Nat.eqb (fst kw) 8) subs && negb (Nat.eqb (length subs) 0)
+  | Some (asc, wid, nc) =>
+      let nw := length (filter (fun kw => snd kw) subs) in
+      let na := length (filter (fun kw => negb (snd kw)) subs) in
+      (if wid then Nat.leb 1 nw else Nat.eqb nw 0) &&
+      (if asc then Nat.leb 1 na else Nat.eqb na 0) &&
+      (if asc && wid then Nat.eqb nw na else true) &&
+      forallb (fun kw => negb (Nat.eqb (fst kw) 1) || (negb nc && negb wid)) subs &&
+      (if forallb (fun kw => Nat.eqb (fst kw) 4) subs
+       then Nat.eqb (length subs) ((if asc then 1 else 0) + (if wid then 1 else 0)) else true)
+  end.
+
 (* ---- stream (g) ------------------------------------------------------- *)
 (* The search only looks where an atom occurs, and a regexp is verified forwards and
    backwards FROM the atom: a start s of an occurrence can be found only if, for one of
@@ -531,8 +566,8 @@ Definition check_case (c : case) : bool :=
   | PipeCase p sps atoms _ k hits d rep => pipe_check p sps atoms k hits d rep
   | ChainCase p pieces atoms k hits evs fo d rep => chain_check p pieces atoms k hits evs fo d rep
   | AtomsCase p atoms d rep => atom_cover_ok p atoms d
-  | ScanCase p d mm panicked rep =>
-      negb panicked &&
+  | ScanCase p subs d mm panicked rep =>
+      negb panicked && subs_ok p subs &&
       (if limit_reached mm rep then
          match mm with Some n => N.of_nat (length rep) =? N.max n 1 | None => true end
        else match predicted p d (ref_scan p d) with
@@ -553,7 +588,7 @@ Definition spec_case (c : case) : bool :=
       ascending_b (map t_start final) && starts_subset final adds
   | PMCase _ _ _ dump => forallb (fun e => ascending_b (map t_start (snd (fst e)))) dump
   | PMBigCase _ _ _ _ _ _ _ dump => forallb (fun e => ascending_b (map t_start (snd (fst e)))) dump
-  | ScanCase p d mm panicked rep => negb panicked && scan_spec p d mm rep
+  | ScanCase p _ d mm panicked rep => negb panicked && scan_spec p d mm rep
   | MLPanicCase _ => false
   | PipeCase p _ _ anchored _ _ d rep =>
       if anchored then sound_b p d (ref_scan p d) rep && ascending_b (map t_start rep)
@@ -584,8 +619,9 @@ Definition wide_byte_gap_explains (p : pat) (d : bytes) (rep : list triple) : bo
    16 more matches than max_matches_per_pattern; 32 for the other streams *)
 Definition diagnose (c : case) : N :=
   match c with
-  | ScanCase p d mm panicked rep =>
+  | ScanCase p subs d mm panicked rep =>
       let rs := ref_scan p d in
+      (if subs_ok p subs then 0 else 1048576) +
       (if panicked then 1 else 0) + (if sound_b p d rs rep then 0 else 2) +
       (if ascending_b (map t_start rep) then 0 else 4) +
       (if limit_reached mm rep || complete_b p d rs rep then 0 else 8) +
